@@ -267,8 +267,16 @@ def _get_condition_function(qubit_index, measurement_value):
     """
 
     def condition(outcomes):
-        two_mode_outcomes = [(outcomes[qubit_index * 2], outcomes[qubit_index * 2 + 1])]
-        qubit_outcome = get_bosonic_qubit_samples(two_mode_outcomes)[0][0]
+        two_mode_outcome = [outcomes[qubit_index * 2], outcomes[qubit_index * 2 + 1]]
+        # NOTE: An outcome outside the dual-rail code space (possible with a tiny
+        # probability, since the KLM angles are only approximate) does not satisfy any
+        # condition.
+        if two_mode_outcome == _zero_bosonic_qubit_state:
+            qubit_outcome = 0
+        elif two_mode_outcome == _one_bosonic_qubit_state:
+            qubit_outcome = 1
+        else:
+            return False
         return qubit_outcome == measurement_value
 
     return condition
